@@ -207,3 +207,17 @@ case("C19", "unsorted-return", "VIOLATION", [(SQ, "return seqlets.sort_values(\"
 case("C19", "edge-mask-unguarded", "VIOLATION", [(SQ, "\tif flank > 0:\n\t\tX_sum[:, :flank] = -numpy.inf\n\t\tX_sum[:, -flank:] = -numpy.inf", "\tX_sum[:, :flank] = -numpy.inf\n\tX_sum[:, -flank:] = -numpy.inf")], "R-SLICE0")
 case("C19", "tfm-inplace-on-input", "VIOLATION", [(SQ, "X_sum = X_attr.unfold(-1, window_size, 1).sum(dim=-1)", "X_attr[X_attr != X_attr] = 0\n\tX_sum = X_attr.unfold(-1, window_size, 1).sum(dim=-1)")], "R-PURE")
 case("C19", "mask-partial", "VIOLATION", [(SQ, "for s_idx in range(start, end):", "for s_idx in range(start + 1, end):")], "SPAN")
+
+# ------------------------------------------------------------------ C20
+DS = "tangermeme/design.py"
+prefix("C20", "D16-prefix-last-position", DS, "6a80cec", "R-WIN", "design.greedy_substitution")
+case("C20", "tiles-plus-two", "VIOLATION", [(DS, "X.repeat(X.shape[-1] - len(motif) + 1, 1, 1)", "X.repeat(X.shape[-1] - len(motif) + 2, 1, 1)")], "R-WIN")
+case("C20", "tile-column-shift", "VIOLATION", [(DS, "X[i, k, j+i] = motif[k, j]", "X[i, k, j+i+1] = motif[k, j]")], "R-WIN")
+case("C20", "tiles-hoisted-count", "HOLDS", [(DS, "\t\t\tX_ = X.repeat(X.shape[-1] - len(motif) + 1, 1, 1).numpy(force=True)", "\t\t\tn_pos = X.shape[-1] + 1 - len(motif)\n\t\t\tX_ = X.repeat(n_pos, 1, 1).numpy(force=True)")])
+case("C20", "accept-ge", "VIOLATION", [(DS, "if improvement > best_improvement:", "if improvement >= best_improvement:")], "R-ACCEPT")
+case("C20", "tol-on-last-improvement", "VIOLATION", [(DS, "if best_improvement <= tol:", "if improvement <= tol:")], "R-ACCEPT")
+case("C20", "tol-before-apply", "VIOLATION", [(DS, "\t\tif best_motif_idx != -1:", "\t\tif best_improvement <= tol:\n\t\t\tbreak\n\t\tif best_motif_idx != -1:"), (DS, "\t\tif best_improvement <= tol:\n\t\t\tbreak\n\n\t\titeration += 1", "\t\titeration += 1")], "R-ACCEPT")
+case("C20", "loss-prev-stale", "VIOLATION", [(DS, "\t\t\tloss_prev = best_loss\n", "")], "R-ACCEPT")
+case("C20", "best-not-reset", "VIOLATION", [(DS, "\t\ttic = time.time()\n\t\tbest_improvement, best_motif_idx, best_pos = 0, -1, -1", "\t\ttic = time.time()"), (DS, "\ttic = time.time()\n\titeration = 0", "\ttic = time.time()\n\titeration = 0\n\tbest_improvement, best_motif_idx, best_pos = 0, -1, -1")], "R-ACCEPT")
+case("C20", "apply-wrong-pos", "VIOLATION", [(DS, "X = substitute(X, motifs[best_motif_idx], start=best_pos, ", "X = substitute(X, motifs[best_motif_idx], start=pos, ")], "R-ACCEPT")
+case("C20", "maxiter-after-search", "VIOLATION", [(DS, "\t\tif iteration == max_iter:\n\t\t\tbreak\n\n\t\ttic = time.time()", "\t\ttic = time.time()"), (DS, "\t\tif best_improvement <= tol:\n\t\t\tbreak", "\t\tif best_improvement <= tol:\n\t\t\tbreak\n\t\tif iteration == max_iter:\n\t\t\tbreak")], "R-ACCEPT")
